@@ -59,7 +59,7 @@ const (
 	SecElifCall        // if VB<r> { H.Y } else if H.C(r,p) { H.Y }  an else-if condition whose evaluation fails (panicking call)
 	SecForAcc          // ac = 0; for fi = 0; fi < 3; fi += 1 { ac = ac + 1; H.Y }; H.Acc(r, ac)   a counting loop with a scheduling point in its body
 	SecApiSet          // H.ApiIs(r, QA); QA = Req.ID; H.Y       reads, then assigns, a by-value entry of the pool's api map (the assignment may fail)
-	SecRangeGrow       // forRange gk := Req.Sl { Req.Grow(); H.Y }   a loop over a slice that its own body keeps growing
+	SecRangeGrow       // gs = H.NewGrow(r); forRange gk := gs.Items { gs.Push(); H.Y }   a loop over a slice that its own body keeps growing
 	SecThreeSetLoc     // l3 = H.Obj3(r); l3.P.X = 5; H.Y           a three-level store whose root is a rule local (may fail)
 	SecOptFn           // H.OptV(r, ofn(r))                        a function value only some requests inject
 	SecOptName         // H.OptSet(r); ov = r+300                  a plain name that some calls inject (then it is shared) and others do not (then it is a local)
@@ -430,7 +430,7 @@ func (r *RuleDef) Render() string {
 			fmt.Fprintf(&b, "H.ApiIs(%d, QA)\nH.M(%d,%d)\nQA = Req.ID\nH.Y(%d,%d)\n", id, id, p, id, yk)
 			yk++
 		case SecRangeGrow:
-			fmt.Fprintf(&b, "forRange gk%d := Req.Sl {\nReq.Grow()\nH.Y(%d,%d)\n}\n", p, id, yk)
+			fmt.Fprintf(&b, "gs%d = H.NewGrow(%d)\nforRange gk%d := gs%d.Items {\ngs%d.Push()\nH.Y(%d,%d)\n}\n", p, id, p, p, p, id, yk)
 			yk++
 		case SecFnArgKind:
 			fmt.Fprintf(&b, "H.B(%d,%d)\nfa(%d, VS%d)\n", id, p, id, id)
